@@ -106,6 +106,19 @@ CHECKS = {
         technique="Lean 4 proof (tiling over a monotone map, induction over steps) + bit-exact window correspondence + differential delivery/impulse pipeline on the real code",
         ref="5/C01",
     ),
+    "C19": dict(
+        text="Theorems (Lean 4): if any registered agent has no record for the epoch the import raises the missing-ephemeris error naming it, whatever else "
+             "the database holds; a successful import gives every registered agent the state of its (first) record, empties the registrant set and leaves "
+             "unregistered agents untouched (invariant by induction over the returned rows, duplicate-free registrant keys); the observation loader "
+             "returns each stored position/target key exactly once and everything when keys are distinct; the public write methods are rejected. A "
+             "witness theorem records the unrepaired count comparison. Tied to the code by running the real EphemerisImporter and "
+             "loadImportedObservations/_attachObsMetadata on real SQLite importer files built per case (supersets, subsets, gaps, unrelated agents "
+             "hiding a missing one, duplicate observations), with SHA-256 of the file before and after.",
+        note=BASE_TB + "SQLAlchemy/SQLite return what was stored; agents are stand-ins whose importState is the real TargetAgent.importState; the path from the "
+             "engine's observation list to the filter update is covered by C08/C09, not here.",
+        technique="Lean 4 proof (invariant over the import loop) + differential correspondence on real importer database files",
+        ref="5/C19",
+    ),
 }
 
 PLANNED = {}
